@@ -16,7 +16,6 @@ the alphabetical list of the non-vacant elements (pycalphad's phase_record.nonva
 """
 import ast, os, re
 
-IDX_NAMES = ('sortIndices', 'unsortIndices')
 TARGETS = ['kawin/thermo/Thermodynamics.py', 'kawin/thermo/MultiTherm.py',
            'kawin/diffusion/DiffusionParameters.py', 'kawin/diffusion/HomogenizationParameters.py']
 
@@ -66,19 +65,26 @@ def _elements_slice(node):
 
 
 class FuncTranslator:
-    def __init__(self, fname, func):
+    """Normalising translator for one function.  Index variables are whatever is assigned from np.argsort (any name, nested
+    calls allowed) or received through a parameter that a caller fills with an index variable.  Arrays indexed with them
+    are followed through single-assignment temporaries (substituted), both branches of an `if` (merged) and chained
+    subscripts; a Gallina definition is emitted where such a value LEAVES the tracked world (returned, passed to a call,
+    stored into an attribute / element, used in arithmetic) - once per distinct expression - so that named or inlined
+    temporaries, renamed locals and merged / split indexing steps give the same definitions."""
+    def __init__(self, fname, func, idx_params=()):
         self.fname, self.func = fname, func
         self.idx = {}        # index variable -> gallina (list nat)
         self.nat = {}        # refIndex-like variable -> gallina nat
-        self.env = {}        # array variable -> (gallina expr, set of opaque params)
+        self.env = {}        # array variable -> (gallina expr, frozenset of opaque params)
         self.params = {}     # opaque name -> type ('vec' | 'mat')
         self.opaque_src = {}
         self.defs = []       # (name, params(list of (name,type)), body, source text, lineno)
+        self.seen = set()
         self.k = 0
-        for a in func.args.args:
-            if a.arg in IDX_NAMES:
-                self.idx[a.arg] = a.arg
-        self.idx_params = [a.arg for a in func.args.args if a.arg in IDX_NAMES]
+        self.calls = []      # (callee name, position | keyword) where an index variable is passed on
+        self.idx_params = [a.arg for a in func.args.args if a.arg in idx_params]
+        for a in self.idx_params:
+            self.idx[a] = a
 
     # ---- expressions --------------------------------------------------------------------
     def opaque(self, node):
@@ -92,25 +98,42 @@ class FuncTranslator:
                     name = n
             if name is None:
                 name = 'X%d' % (len([n for n in self.opaque_src if re.fullmatch(r'X\d+', n)]) + 1)
-        if name in IDX_NAMES or name in self.idx or name in self.nat:
+        if name in self.idx or name in self.nat:
             raise TranslateError('index variable used as an array: ' + src)
         self.opaque_src.setdefault(name, src)
         self.params.setdefault(name, 'vec')
-        return (name, {name})
+        return (name, frozenset([name]))
+
+    def argsort_expr(self, node):
+        """np.argsort(E) with E a slice of <obj>.elements or (recursively) an index expression"""
+        if not _is_np(node, 'argsort'):
+            return None
+        if len(node.args) != 1 or node.keywords:
+            raise TranslateError('argsort with options: ' + ast.unparse(node))
+        a = node.args[0]
+        es = _elements_slice(a)
+        if isinstance(es, str):
+            return '(argsort lexleb %s)' % es
+        inner = self.idx_expr(a)
+        if inner is not None:
+            return '(argsort Nat.leb %s)' % inner
+        raise TranslateError('argsort of something else: ' + ast.unparse(node))
 
     def idx_expr(self, node):
         """gallina list-nat expression for an index, or None if the node is not index-like"""
         if isinstance(node, ast.Name) and node.id in self.idx:
             return self.idx[node.id]
-        if isinstance(node, ast.Subscript) and isinstance(node.value, ast.Name) and node.value.id in self.idx:
+        if _is_np(node, 'argsort'):
+            return self.argsort_expr(node)
+        if isinstance(node, ast.Subscript) and self.idx_expr(node.value) is not None:
             s = node.slice
             if isinstance(s, ast.Slice) and s.step is None and _const(s.upper) is None and _const(s.lower) == 1:
-                return '(tl %s)' % self.idx[node.value.id]
+                return '(tl %s)' % self.idx_expr(node.value)
             raise TranslateError('unsupported slice of an index variable: ' + ast.unparse(node))
         return None
 
     def mentions_idx(self, node):
-        return any(isinstance(n, ast.Name) and (n.id in self.idx or n.id in IDX_NAMES) for n in ast.walk(node))
+        return any((isinstance(n, ast.Name) and n.id in self.idx) or _is_np(n, 'argsort') for n in ast.walk(node))
 
     def translate(self, node):
         """returns (gallina, params) when `node` is a tracked array expression, else None"""
@@ -124,8 +147,8 @@ class FuncTranslator:
         if isinstance(node, ast.Subscript):
             s = node.slice
             base = node.value
-            if isinstance(base, ast.Name) and base.id in self.idx:
-                raise TranslateError('index variable used outside a subscript position: ' + ast.unparse(node))
+            if self.idx_expr(base) is not None:
+                return None                                   # a slice of an index variable: handled by idx_expr
             ie = self.idx_expr(s)
             if ie is not None:
                 g, ps = self.translate(base) or self.opaque(base)
@@ -147,64 +170,82 @@ class FuncTranslator:
             if t is not None:
                 if isinstance(s, ast.Slice) and s.step is None and _const(s.upper) is None and _const(s.lower) == 1:
                     return ('(tl %s)' % t[0], t[1])
-                raise TranslateError('unsupported slice of a reordered array: ' + ast.unparse(node))
+                if 'reorder' in t[0]:
+                    raise TranslateError('unsupported slice of a reordered array: ' + ast.unparse(node))
         return None
 
     def emit(self, node, t):
+        ps = sorted(t[1])
+        key = (t[0], tuple(ps))
+        if key in self.seen:
+            return
+        self.seen.add(key)
         self.k += 1
         name = 'gen_%s_%d' % (self.func.name.lstrip('_'), self.k)
-        ps = sorted(t[1])
         self.defs.append((name, [(p, self.params[p]) for p in ps], t[0], ast.unparse(node), node.lineno))
 
-    # ---- statements -----------------------------------------------------------------------
-    def scan_expr(self, node, top=True):
-        """emit a definition for every maximal tracked sub-expression that involves an index variable"""
+    # ---- sinks ---------------------------------------------------------------------------------
+    def scan_expr(self, node):
+        """emit a definition for every maximal tracked sub-expression that leaves the tracked world here"""
         if node is None:
             return
         t = None
-        if isinstance(node, (ast.Subscript, ast.Call)):
+        if isinstance(node, (ast.Subscript, ast.Call, ast.Name)):
             t = self.translate(node)
         if t is not None and ('reorder' in t[0]):
             self.emit(node, t)
             return
-        if isinstance(node, ast.Call):
-            for a in list(node.args) + [kw.value for kw in node.keywords]:
-                if isinstance(a, ast.Name) and a.id in self.idx:
-                    self.k += 1
-                    self.defs.append(('gen_%s_%d' % (self.func.name.lstrip('_'), self.k), [], self.idx[a.id],
-                                      'argument %s of %s' % (a.id, ast.unparse(node.func)), node.lineno))
+        if isinstance(node, ast.Call) and not _is_np(node, 'argsort'):
+            fname = node.func.attr if isinstance(node.func, ast.Attribute) else node.func.id if isinstance(node.func, ast.Name) else None
+            for pos, a in enumerate(node.args):
+                ie = self.idx_expr(a) if isinstance(a, (ast.Name, ast.Call)) else None
+                if ie is not None:
+                    self._pass_on(node, fname, pos, ie, a)
                 else:
-                    self.scan_expr(a, False)
-            self.scan_expr(node.func, False)
+                    self.scan_expr(a)
+            for kw in node.keywords:
+                ie = self.idx_expr(kw.value) if isinstance(kw.value, (ast.Name, ast.Call)) else None
+                if ie is not None:
+                    self._pass_on(node, fname, kw.arg, ie, kw.value)
+                else:
+                    self.scan_expr(kw.value)
+            self.scan_expr(node.func)
             return
-        if isinstance(node, ast.Name) and node.id in self.idx:
+        if self.idx_expr(node) is not None if isinstance(node, (ast.Name, ast.Call)) else False:
             raise TranslateError('index variable escapes: line %d' % node.lineno)
         for ch in ast.iter_child_nodes(node):
             if isinstance(ch, ast.expr):
-                self.scan_expr(ch, False)
+                self.scan_expr(ch)
             elif isinstance(ch, (ast.keyword, ast.Slice, ast.comprehension)):
                 for g in ast.iter_child_nodes(ch):
                     if isinstance(g, ast.expr):
-                        self.scan_expr(g, False)
+                        self.scan_expr(g)
 
+    def _pass_on(self, call, fname, where, ie, a):
+        if fname is None:
+            raise TranslateError('index variable passed to an unknown callee: ' + ast.unparse(call))
+        self.calls.append((fname, where))
+        key = (ie, ())
+        if key not in self.seen:
+            self.seen.add(key)
+            self.k += 1
+            self.defs.append(('gen_%s_%d' % (self.func.name.lstrip('_'), self.k), [], ie,
+                              'index argument %s of %s' % (ast.unparse(a), ast.unparse(call.func)), call.lineno))
+
+    # ---- statements -----------------------------------------------------------------------
     def assign(self, target, value):
+        if isinstance(target, (ast.Tuple, ast.List)) and isinstance(value, (ast.Tuple, ast.List)) and len(target.elts) == len(value.elts):
+            for tg, v in zip(target.elts, value.elts):
+                self.assign(tg, v)
+            return
         if isinstance(target, ast.Name):
             nm = target.id
-            if _is_np(value, 'argsort'):
-                if len(value.args) != 1 or value.keywords:
-                    raise TranslateError('argsort with options: ' + ast.unparse(value))
-                a = value.args[0]
-                es = _elements_slice(a)
-                if isinstance(es, str):
-                    self.idx[nm] = '(argsort lexleb %s)' % es
-                elif isinstance(a, ast.Name) and a.id in self.idx:
-                    self.idx[nm] = '(argsort Nat.leb %s)' % self.idx[a.id]
-                else:
-                    raise TranslateError('argsort of something else: ' + ast.unparse(value))
-                if nm not in IDX_NAMES:
-                    raise TranslateError('argsort result bound to unexpected name ' + nm)
+            ie = self.idx_expr(value) if isinstance(value, (ast.Call, ast.Name, ast.Subscript)) else None
+            if ie is not None:
+                self.idx[nm] = ie
+                self.env.pop(nm, None)
                 return
-            if nm in IDX_NAMES or nm in self.idx:
+            if nm in self.idx:
                 raise TranslateError('index variable %s assigned from %s' % (nm, ast.unparse(value)))
             # refIndex = <list>.index(<obj>.elements[0])
             if (isinstance(value, ast.Call) and isinstance(value.func, ast.Attribute) and value.func.attr == 'index'
@@ -214,42 +255,70 @@ class FuncTranslator:
             if nm in self.nat:
                 del self.nat[nm]
             t = self.translate(value) if isinstance(value, (ast.Subscript, ast.Call, ast.Name)) else None
-            self.scan_expr(value)
             if t is not None:
-                self.env[nm] = t
+                self.env[nm] = t                              # a temporary: substituted where it is used
             else:
+                self.scan_expr(value)
                 self.env.pop(nm, None)
             return
         self.scan_expr(value)
         self.scan_expr(target)
 
+    def _snapshot(self):
+        return dict(self.env), dict(self.idx), dict(self.nat)
+
+    def _merge(self, a, b, line):
+        out = []
+        for da, db, what in zip(a, b, ('array', 'index variable', 'position')):
+            m = {}
+            for k in set(da) | set(db):
+                va, vb = da.get(k), db.get(k)
+                if va is not None and vb is not None and va != vb:
+                    raise TranslateError('%s %s is permuted differently on two paths reaching line %d' % (what, k, line))
+                m[k] = va if va is not None else vb
+            out.append(m)
+        self.env, self.idx, self.nat = out
+
+    def branches(self, bodies, line):
+        start = self._snapshot()
+        ends = []
+        for body in bodies:
+            self.env, self.idx, self.nat = (dict(x) for x in start)
+            self.stmts(body)
+            ends.append(self._snapshot())
+        acc = ends[0]
+        for e in ends[1:]:
+            self._merge(acc, e, line)
+            acc = self._snapshot()
+        self.env, self.idx, self.nat = (dict(x) for x in acc)
+
     def stmts(self, body):
         for st in body:
             if isinstance(st, ast.Assign):
-                if len(st.targets) != 1:
-                    raise TranslateError('chained assignment at line %d' % st.lineno)
-                self.assign(st.targets[0], st.value)
+                for tg in st.targets:
+                    self.assign(tg, st.value)
+            elif isinstance(st, ast.AnnAssign):
+                if st.value is not None:
+                    self.assign(st.target, st.value)
             elif isinstance(st, ast.AugAssign):
                 self.scan_expr(st.value)
                 if isinstance(st.target, ast.Name):
                     if st.target.id in self.idx:
                         raise TranslateError('index variable modified at line %d' % st.lineno)
+                    self.scan_expr(ast.copy_location(ast.Name(id=st.target.id, ctx=ast.Load()), st))
                     self.env.pop(st.target.id, None)
+                else:
+                    self.scan_expr(st.target)
             elif isinstance(st, (ast.Expr, ast.Return)):
                 self.scan_expr(st.value)
             elif isinstance(st, ast.If):
                 self.scan_expr(st.test)
-                self.stmts(st.body)
-                self.stmts(st.orelse)
+                self.branches([st.body, st.orelse], st.lineno)
             elif isinstance(st, (ast.For, ast.While)):
                 self.scan_expr(st.iter if isinstance(st, ast.For) else st.test)
-                self.stmts(st.body)
-                self.stmts(st.orelse)
+                self.branches([st.body + st.orelse, []], st.lineno)
             elif isinstance(st, ast.Try):
-                self.stmts(st.body)
-                for h in st.handlers:
-                    self.stmts(h.body)
-                self.stmts(st.orelse)
+                self.branches([st.body + st.orelse] + [h.body for h in st.handlers], st.lineno)
                 self.stmts(st.finalbody)
             elif isinstance(st, ast.With):
                 self.stmts(st.body)
@@ -264,10 +333,7 @@ class FuncTranslator:
 
 
 def uses_index_idiom(func):
-    for n in ast.walk(func):
-        if _is_np(n, 'argsort'):
-            return True
-    return any(a.arg in IDX_NAMES for a in func.args.args)
+    return any(_is_np(n, 'argsort') for n in ast.walk(func))
 
 
 def translate_repo(repo):
@@ -278,38 +344,56 @@ def translate_repo(repo):
            'Import ListNotations.',
            '']
     summary = []
-    for rel in TARGETS:
-        src = open(os.path.join(repo, rel)).read()
-        tree = ast.parse(src)
-        funcs = []
-        for node in ast.walk(tree):
-            if isinstance(node, ast.FunctionDef) and uses_index_idiom(node):
-                funcs.append(node)
-        funcs.sort(key=lambda f: f.lineno)
+    trees = {rel: ast.parse(open(os.path.join(repo, rel)).read()) for rel in TARGETS}
+    allfuncs = {rel: sorted([n for n in ast.walk(t) if isinstance(n, ast.FunctionDef)], key=lambda f: f.lineno) for rel, t in trees.items()}
+    # pass 1: functions that compute element indices; pass 2: functions that receive them through a parameter
+    todo = [(rel, f, ()) for rel in TARGETS for f in allfuncs[rel] if uses_index_idiom(f)]
+    done, results = set(), []
+    while todo:
+        rel, f, idxp = todo.pop(0)
+        if (rel, f.name) in done:
+            continue
+        done.add((rel, f.name))
+        ft = FuncTranslator(rel, f, idxp)
+        ft.stmts(f.body)
+        if not ft.defs:
+            raise TranslateError('%s.%s computes or receives element indices but never uses them' % (rel, f.name))
+        results.append((rel, f, ft))
+        for callee, where in ft.calls:
+            cands = [(r2, g) for r2 in TARGETS for g in allfuncs[r2] if g.name == callee]
+            if len(cands) != 1:
+                raise TranslateError('index variable passed to %s, which is not a unique function of the translated modules' % callee)
+            r2, g = cands[0]
+            names = [a.arg for a in g.args.args]
+            pname = where if isinstance(where, str) else (names[where + 1] if names and names[0] == 'self' else names[where]) if isinstance(where, int) and where < len(names) else None
+            if pname is None or pname not in names:
+                raise TranslateError('cannot match the index argument of %s with a parameter' % callee)
+            if (r2, g.name) in done:
+                continue
+            prev = [t for t in todo if t[0] == r2 and t[1] is g]
+            if prev:
+                todo.remove(prev[0])
+                todo.append((r2, g, tuple(set(prev[0][2]) | {pname})))
+            else:
+                todo.append((r2, g, (pname,)))
+    results.sort(key=lambda r: (TARGETS.index(r[0]), r[1].lineno))
+    for rel, f, ft in results:
         modname = os.path.basename(rel)[:-3]
-        for f in funcs:
-            ft = FuncTranslator(rel, f)
-            ft.stmts(f.body)
-            for n in ast.walk(f):
-                if _is_np(n, 'argsort'):
-                    pass
-            if not ft.defs:
-                raise TranslateError('%s.%s computes element indices but never uses them' % (modname, f.name))
-            out.append('(* %s : %s (line %d) *)' % (rel, f.name, f.lineno))
-            for (name, params, body, text, line) in ft.defs:
-                full = '%s_%s' % (modname, name[4:])
-                is_index = not params and 'reorder' not in body
-                args = '' if is_index else ' {A : Type} (d : A)'
-                args += ''.join(' (%s : list nat)' % p for p in ft.idx_params)
-                args += ' (els : list (list Z))'
-                args += ''.join(' (%s : %s)' % (p, 'list A' if ty == 'vec' else 'list (list A)') for p, ty in params)
-                out.append('(* line %d: %s *)' % (line, text.replace('*)', '* )')))
-                for p, ty in params:
-                    if ft.opaque_src.get(p) not in (None, p):
-                        out.append('(*   %s stands for %s *)' % (p, ft.opaque_src[p].replace('*)', '* )')))
-                out.append('Definition gen_%s%s := %s.' % (full, args, body))
-                summary.append({'def': 'gen_' + full, 'file': rel, 'function': f.name, 'line': line, 'source': text, 'gallina': body})
-            out.append('')
+        out.append('(* %s : %s (line %d) *)' % (rel, f.name, f.lineno))
+        for (name, params, body, text, line) in ft.defs:
+            full = '%s_%s' % (modname, name[4:])
+            is_index = not params and 'reorder' not in body
+            args = '' if is_index else ' {A : Type} (d : A)'
+            args += ''.join(' (%s : list nat)' % p for p in ft.idx_params)
+            args += ' (els : list (list Z))'
+            args += ''.join(' (%s : %s)' % (p, 'list A' if ty == 'vec' else 'list (list A)') for p, ty in params)
+            out.append('(* line %d: %s *)' % (line, text.replace('*)', '* )')))
+            for p, ty in params:
+                if ft.opaque_src.get(p) not in (None, p):
+                    out.append('(*   %s stands for %s *)' % (p, ft.opaque_src[p].replace('*)', '* )')))
+            out.append('Definition gen_%s%s := %s.' % (full, args, body))
+            summary.append({'def': 'gen_' + full, 'file': rel, 'function': f.name, 'line': line, 'source': text, 'gallina': body})
+        out.append('')
     for fn in (translate_build_profile, translate_growth_call, translate_phase_closures):
         text, summ = fn(repo)
         out.append(text)
